@@ -69,3 +69,13 @@ impl<'l, Data> SourceList<'l, Data> {
         }
     }
 }
+
+#[cfg(feature = "verif_hooks")]
+impl<Data> SourceList<'_, Data> {
+    pub(crate) fn verif_counts(&self) -> (usize, usize) {
+        (
+            self.sources.len(),
+            self.sources.iter().filter(|s| s.source.is_some()).count(),
+        )
+    }
+}
